@@ -22,6 +22,22 @@ func c05Strings() []string {
 		"9223372036854775808", "18446744073709551616", "a", "b", "A", "aa", "\u00e9", "\uffff", "\U00010000", "\U0001d4b3", "true", "null", "undefined", "[object Object]"}
 }
 
+// c05WhiteSpace: numerals wrapped in the code points on which Go's unicode.IsSpace / strings.TrimSpace and
+// ES5's StrWhiteSpaceChar (9.3.1) differ - U+0085 (Go only), U+FEFF and U+180E (ES5 only) - plus ordinary
+// white space and line terminators, and U+200B (neither): leading, trailing, both, alone.
+func c05WhiteSpace() []string {
+	ws := []string{"\u0085", "\ufeff", "\u180e", "\u00a0", "\u2028", "\u3000", "\u200b", "\v"}
+	nums := []string{"12", "0x1f", "Infinity", "-1.5e1", ""}
+	var out []string
+	for _, w := range ws {
+		for _, n := range nums {
+			out = append(out, w+n, n+w, w+n+w)
+		}
+		out = append(out, w+" ", " "+w+"\t7\n"+w)
+	}
+	return out
+}
+
 func c05Values(r *h.Rng) []string {
 	var vs []string
 	vs = append(vs, "u", "n", "b:0", "b:1")
@@ -48,6 +64,9 @@ func c05Values(r *h.Rng) []string {
 		}
 	}
 	for _, s := range c05Strings() {
+		vs = append(vs, h.BytesTok(s))
+	}
+	for _, s := range c05WhiteSpace() {
 		vs = append(vs, h.BytesTok(s))
 	}
 	return vs
@@ -85,10 +104,11 @@ func genC05(c *h.Ctx) {
 					c.Add("cmp "+op+" "+a+" "+b, "cmp:"+op)
 				}
 				c.Add("same "+a+" "+b, "same")
-				if !isStrTok(a) && !isStrTok(b) {
-					for _, op := range c05Bin {
-						c.Add("bin "+op+" "+a+" "+b, "bin:"+op)
+				for _, op := range c05Bin {
+					if op == "add" && (isStrTok(a) || isStrTok(b)) {
+						continue // string concatenation: not binNum's arm
 					}
+					c.Add("bin "+op+" "+a+" "+b, "bin:"+op)
 				}
 			}
 		}
@@ -102,10 +122,10 @@ func genC05(c *h.Ctx) {
 		case 4:
 			c.Add("same "+a+" "+b, "same")
 		default:
-			if isStrTok(a) || isStrTok(b) {
-				continue
-			}
 			op := c05Bin[c.Rng.Intn(len(c05Bin))]
+			if op == "add" && (isStrTok(a) || isStrTok(b)) {
+				op = "sub" // string concatenation is not binNum's arm
+			}
 			c.Add("bin "+op+" "+a+" "+b, "bin:"+op)
 		}
 	}
